@@ -123,6 +123,7 @@ Lemma ns_log_event st a b c : nsame st (log_event st a b c). Proof. apply nsame_
 Lemma ns_bump st f : nsame st (bump_counter st f). Proof. apply nsame_owner_eq; reflexivity. Qed.
 Lemma ns_with_files st c : nsame st (with_files st c). Proof. apply nsame_owner_eq; reflexivity. Qed.
 Lemma ns_with_node st c : nsame st (with_node st c). Proof. apply nsame_owner_eq; reflexivity. Qed.
+Lemma ns_with_resolved st c : nsame st (with_resolved st c). Proof. apply nsame_owner_eq; reflexivity. Qed.
 Lemma ns_forget st m ps : nsame st (forget st m ps). Proof. apply nsame_owner_eq; reflexivity. Qed.
 Lemma ns_set_exp st m k v : nsame st (set_exp st m k v).
 Proof.
@@ -271,13 +272,10 @@ Proof.
   intro HI. unfold resolve.
   set (p := pjoin (if is_abs r then None else Some d) r). set (ps := render p).
   destruct (is_file_or_dir_path r).
-  - destruct (cache_get (files_cache st) ps); [apply ngood_refl; exact HI|].
-    pose proof (try_cands_ngood (cands_file_or_dir fs p) st HI) as G.
-    destruct (try_cands fs rq st (cands_file_or_dir fs p)) as [st1 x]. cbn [fst] in *.
-    destruct x as [m| | | |]; try exact G. cbn [fst].
-    assert (Hs : ngood nr st (with_files st1 (cache_set (files_cache st1) ps m)))
-      by (eapply ngood_trans; [exact G|apply ngood_ns; [apply ns_with_files|exact (proj1 G)]]).
-    destruct (cache_get (files_cache st1) ps) as [m'|]; [destruct (Nat.eqb m' m); [exact Hs|exact G]|exact Hs].
+  - destruct (cache_get (resolved_cache st) ps); [apply ngood_refl; exact HI|].
+    pose proof (try_cands_ngood (cands_file_or_dir fs (parse ps)) st HI) as G.
+    destruct (try_cands fs rq st (cands_file_or_dir fs (parse ps))) as [st1 x]. cbn [fst] in *.
+    destruct x as [m| | | |]; exact G.
   - pose proof (load_native_ngood nr st r Hwf HI) as G0. destruct (load_native nr st r) as [st0 rn]. cbn [fst] in G0.
     destruct rn as [m| | | |]; try exact G0.
     set (nk := render d ++ 0 :: r).
@@ -285,10 +283,7 @@ Proof.
     pose proof (try_cands_ngood (cands_node fs d r) st0 (proj1 G0)) as G.
     destruct (try_cands fs rq st0 (cands_node fs d r)) as [st1 x]. cbn [fst] in *.
     assert (G01 : ngood nr st st1) by (eapply ngood_trans; eassumption).
-    destruct x as [m| | | |]; try exact G01. cbn [fst].
-    assert (Hs : ngood nr st (with_node st1 (cache_set (node_cache st1) nk m)))
-      by (eapply ngood_trans; [exact G01|apply ngood_ns; [apply ns_with_node|exact (proj1 G01)]]).
-    destruct (cache_get (node_cache st1) nk) as [m'|]; [destruct (Nat.eqb m' m); [exact Hs|exact G01]|exact Hs].
+    destruct x as [m| | | |]; exact G01.
 Qed.
 
 End NOpen.
